@@ -75,7 +75,7 @@ type lbEngine struct {
 	searchCalls map[*ssa.Function][]*ssa.Call
 	prefixTests map[*ssa.Function]int // terminator tests made through a HasPrefix helper at offset 0, per function
 	clsSets     map[*ssa.Function]*bset
-	paramStart  bool // C14/R14: what is known about the first two bytes where Kind = <param> is stored
+	paramStart  bool                        // C14/R14: what is known about the first two bytes where Kind = <param> is stored
 	posProbe    map[*ssa.Call]bool          // summary run over File.Position: is the argument of this ResolvePos call proved <= len(Buffer)?
 	scanFns     map[string]bool             // functions whose loops are byte scans: checked for unit steps and exhaustive exits
 	progress    bool                        // C03/R7: every loop iteration advances the cursor or a counter
@@ -4441,7 +4441,6 @@ func ruleC13R4(w *World, r *Report) {
 	}
 	// (writes to the current token outside nextToken — the '>>' split — are the subject of C13/R1)
 }
-
 
 // ruleC14R14: a query parameter is '@' and a name; the name begins with a letter or '_'. '@1' is the symbol '@' and an
 // integer, not a parameter called "1".
